@@ -555,6 +555,8 @@ def run(ctx):
     if have == (256, 2147483647) and (acc.lo, acc.hi) == (256, 2147483647) and (lo, hi) == (256, 2147483647 if hi == 2147483647 else hi) \
             and hi is not None and hi <= 2147483648:
         ctx.ok("R6.2", "slide-id-bounds", sample={"allocator": have, "ST_SlideId": (int(acc.lo), int(acc.hi)), "schema": (int(lo), int(hi))})
+    elif None in have:
+        ctx.error("slide-id-bounds", "the bounds the slide-id allocator works with were not found (%s)" % (have,))
     else:
         ctx.violation("R6.2", "slide-id-bounds", "slide id bounds disagree: allocator %s, simple type (%s, %s), schema (%s, %s)" % (
             have, acc.lo, acc.hi, lo, hi), file=f.file, line=f.line)
